@@ -11,21 +11,25 @@ import (
 // sep[len(tok)] behind the last token; opt[i] marks boundaries where the grammar needs no
 // white space (self-delimiting tokens); kw[i] marks tokens whose letters are case-free.
 type zzSeq struct {
-	tok []string
-	sep []string
-	kw  []bool
+	tok    []string
+	sep    []string
+	kw     []bool
+	inside []bool // inside[i]: boundary i lies inside a size declaration
 }
 
 // zzMkSeq builds a sequence from a compact spec: tokens separated by '|' (boundary needs
-// white space, base " ") or '~' (optional white space, base ""); a leading '!' marks a
-// keyword token (letter case is free).
+// white space, base " "), '~' (optional white space, base "") or '^' (inside a size
+// declaration "[ .. ]": the lexer reads the declaration as ONE token and tolerates white
+// space in it, but a comment there is inside a token, not between tokens, and is not part
+// of the claim); a leading '!' marks a keyword token (letter case is free).
 func zzMkSeq(spec string) *zzSeq {
-	s := &zzSeq{sep: []string{""}}
+	s := &zzSeq{sep: []string{""}, inside: []bool{false}}
 	cur, kw := "", false
 	flush := func(next string) {
 		s.tok = append(s.tok, cur)
 		s.kw = append(s.kw, kw)
 		s.sep = append(s.sep, next)
+		s.inside = append(s.inside, false)
 		cur, kw = "", false
 	}
 	for i := 0; i < len(spec); i++ {
@@ -34,6 +38,9 @@ func zzMkSeq(spec string) *zzSeq {
 			flush(" ")
 		case c == '~':
 			flush("")
+		case c == '^':
+			flush("")
+			s.inside[len(s.inside)-1] = true
 		case c == '!' && cur == "":
 			kw = true
 		default:
@@ -46,7 +53,7 @@ func zzMkSeq(spec string) *zzSeq {
 
 var zzSeqSpecs = []string{
 	// valid, no diagnostics
-	`!S1F1|!W|!H->E|Name|<~!L~[2]~<~!A|"x y"~>~<~!U2|1|!0x1F~>~>~.`,
+	`!S1F1|!W|!H->E|Name|<~!L~[^2^]~<~!A|"x y"~>~<~!U2|1|!0x1F~>~>~.`,
 	// missing direction: one warning
 	`!S6F11|![W]|<~!L~<~!B|!0b1|v~>|...|<~!BOOLEAN|!T|!f~>~>~.`,
 	// two messages, floats with exponent
@@ -57,6 +64,8 @@ var zzSeqSpecs = []string{
 	`!S1F1|!H->E|<~!L~<~!A|x~>~<~!A|x~>~>~.`,
 	// invalid item type (error), missing direction (warning)
 	`!S1F1|!W|<~Q|1~>~.`,
+	// size declarations with optional white space inside the brackets, diagnostics behind them
+	`!S1F1|!H->E|<~!L~[^1^..^3^]~<~!A~[^2^..^]|"abc"~>~<~!U1~[^1^]|300~>~>~.|!S1F2|<~!B|400~>~.`,
 }
 
 func zzJoin(s *zzSeq, sep []string, tok []string) string {
@@ -174,7 +183,7 @@ func ZZ_C08_space() {
 func ZZ_C08_comment() {
 	s := zzMkSeq(zzSeqSpecs[rt.Param("seq")])
 	j, k, end, blank := rt.Param("j"), rt.Param("k"), rt.Param("end"), rt.Param("blank")
-	if j > len(s.tok) || j == 0 && false {
+	if j > len(s.tok) || s.inside[j] {
 		rt.Reach("end")
 		return
 	}
